@@ -13,9 +13,9 @@ import (
 	"math"
 	"math/big"
 	"math/rand"
-	"strings"
 	"os"
 	"runtime"
+	"strings"
 )
 
 type draw struct {
@@ -254,8 +254,8 @@ func Sig(name string, pubkey, data []byte, sign func() []byte, schnorr bool) []b
 // AbstractArith asks the engine to try an abstraction of multiplications and
 // divisions (uninterpreted functions) before the exact bit-vector query.
 func AbstractArith() {}
-func Note(s string)   {}
-func Symbolic() bool  { return false }
+func Note(s string)  {}
+func Symbolic() bool { return false }
 func Tier() int {
 	if vec != nil {
 		return vec.Tier
@@ -286,6 +286,19 @@ func Load(path string) error {
 func Run(f func()) (outcome string) {
 	defer func() {
 		if r := recover(); r != nil {
+			// the engine's path ends at the first failed assertion; whatever
+			// the native run meets after one (an assumption over draws the
+			// model does not contain, a divergence) does not undo it
+			if len(failures) > 0 {
+				switch r.(type) {
+				case assumeFailed, replayDiverged:
+					outcome = "reproduced: " + failures[0]
+					for _, f := range failures[1:] {
+						outcome += " ;; " + f
+					}
+					return
+				}
+			}
 			switch x := r.(type) {
 			case assumeFailed:
 				outcome = "assumption-violated"
@@ -318,3 +331,9 @@ func Run(f func()) (outcome string) {
 // their first result and zero values for the others (natively a no-op: the
 // real function runs).
 func StubReturn(name string, first []byte) {}
+
+// KeyPair declares, for the engine's perfect-cryptography model, that the
+// private scalar priv belongs to the compressed public key pub: crypto.Sign
+// with priv then issues signatures of that key (natively a no-op: the real
+// crypto.Sign signs).
+func KeyPair(priv, pub []byte) {}
